@@ -43,6 +43,11 @@ pub enum St {
     BareKey,
     /// query collections: an empty value between two valid ones (`k=v&k=&k=v`)
     EmptyAmongValues,
+    /// query: the key written with a percent-escape (`l%69mit=`), a legal spelling of the same key:
+    /// with a valid value (decodes), with an unparsable one, and next to the plain spelling
+    EncodedKeyValid,
+    EncodedKeyUnparsable,
+    EncodedKeyRepeated,
 }
 
 #[derive(Clone)]
@@ -238,6 +243,8 @@ pub fn endpoints() -> Vec<EndpointD> {
                 arg(5, Query("rs"), "realSafe", "string", true, true, true),
             ],
         },
+        EndpointD { name: "oneQuery", method: Method::GET, segments: vec!["u", "one"], handler: "one_query", args: vec![arg(0, Query("limit"), "pageLimit", "integer", false, false, true)] },
+        EndpointD { name: "oneQueryRequired", method: Method::GET, segments: vec!["u", "onereq"], handler: "one_query_required", args: vec![arg(0, Query("id"), "theId", "integer", false, true, true)] },
         EndpointD {
             name: "authCookie",
             method: Method::GET,
@@ -337,6 +344,13 @@ pub fn states_of(a: &ArgD) -> Vec<St> {
             }
             v.push(St::EmptyText);
             v.push(St::BareKey);
+            v.push(St::EncodedKeyValid);
+            if a.typed {
+                v.push(St::EncodedKeyUnparsable);
+            }
+            if a.single {
+                v.push(St::EncodedKeyRepeated);
+            }
             if !a.single {
                 v.push(St::EmptyAmongValues);
             }
@@ -365,12 +379,18 @@ pub fn states_of(a: &ArgD) -> Vec<St> {
 /// is this argument undecodable in this state?
 pub fn corrupts(a: &ArgD, s: St) -> bool {
     match s {
-        St::Valid => false,
+        St::Valid | St::EncodedKeyValid => false,
         St::Absent => a.required,
         // the empty text is a string (and nothing else)
         St::EmptyText | St::BareKey | St::EmptyAmongValues => a.typed,
         _ => true,
     }
+}
+
+/// the key with its second character percent-escaped (first if there is only one)
+fn enc_key(k: &str) -> String {
+    let i = if k.len() > 1 { 1 } else { 0 };
+    format!("{}%{:02X}{}", &k[..i], k.as_bytes()[i], &k[i + 1..])
 }
 
 pub struct Built {
@@ -412,6 +432,12 @@ pub fn build(e: &EndpointD, states: &[St]) -> Built {
                     query.push(format!("{}={}", k, a.valid));
                 }
                 St::Unparsable => query.push(format!("{}={}", k, a.bad)),
+                St::EncodedKeyValid => query.push(format!("{}={}", enc_key(k), a.valid)),
+                St::EncodedKeyUnparsable => query.push(format!("{}={}", enc_key(k), a.bad)),
+                St::EncodedKeyRepeated => {
+                    query.push(format!("{}={}", k, a.valid));
+                    query.push(format!("{}={}", enc_key(k), a.valid));
+                }
                 St::EmptyText => query.push(format!("{}=", k)),
                 St::BareKey => query.push(k.to_string()),
                 St::EmptyAmongValues => {
